@@ -37,7 +37,7 @@ var (
 func mkErr(kind, msg string) Val { return Iface{nativeErrType, &nativeErr{kind, msg}} }
 
 var nativeMethods = map[string][]string{
-	"zr":   {"Read", "Close"},
+	"zr":   {"Read", "Close", "Reset"},
 	"zw":   {"Write", "Close"},
 	"crc":  {"Write", "Sum32", "Sum", "Reset", "Size", "BlockSize"},
 	"file": {"Write", "Close", "ReadAt", "Name", "Stat", "Read", "Seek", "Sync"},
